@@ -141,9 +141,10 @@ func (s *ftpService) Handle(ctx context.Context, conn net.Conn) error {
 		}
 	}()
 
-	ftpConn.Serve()
+	// also when the session ends in a panic that the server recovers
+	defer close(recv)
 
-	close(recv)
+	ftpConn.Serve()
 
 	return nil
 }
